@@ -714,10 +714,15 @@ class Interp(object):
         seen, writes = self.loop_frames.pop()
         writes = [w for w in writes if w not in (getattr(annot, 'mutates', None) or ())]
         if writes:
-            raise OutsideSubset(
-                'the body of the cut loop %s writes to an object that exists '
-                'before the loop (%s): the annotation must abstract it' % (
-                    where, ', '.join(sorted(set(writes)))[:200]))
+            # the cut is not a sound abstraction of this loop: the VC stays
+            # undecided (exit 2) unless one of its obligations is refuted on
+            # the paths that were explored
+            msg = ('the body of the cut loop %s writes to an object that exists '
+                   'before the loop (%s): the annotation must abstract it' % (
+                       where, ', '.join(sorted(set(writes)))[:200]))
+            soft = self.ctx.stats.__dict__.setdefault('soft_errors', [])
+            if msg not in soft:
+                soft.append(msg)
 
     def heap_write(self, o, what):
         for seen, writes in self.loop_frames:
